@@ -76,7 +76,16 @@ static void lst_make_sequence(vp_rng_t* r, int mode, uint64_t idx, seq_t* s)
         int tscf = (int)(vp_rng_next(r) & 1);
         size_t acfo = cfo + (tscf ? 24 : 12);
         size_t n = build_valid(r, mode, b, tscf, 1 + (int)vp_rng_below(r, 5), 64);
-        uint64_t t = (idx + (uint64_t)d * 7) % 22;
+        uint64_t t = (idx + (uint64_t)d * 7) % 24;
+        if (t >= 22) {                       /* a full-size valid packet, then a datagram that ends inside its control-format header */
+            name = "long-valid-then-truncated-header";
+            if (d == 0) { n = build_valid(r, mode, b, tscf, 40, 8); }
+            else { n = cfo + 4 + (size_t)vp_rng_below(r, 24);
+                   if (tscf) Avtp_Tscf_SetStreamDataLength((Avtp_Tscf_t*)(b + cfo), 0xffff); else Avtp_Ntscf_SetNtscfDataLength((Avtp_Ntscf_t*)(b + cfo), 0x7ff); }
+            seq_add(s, b, n);
+            if (nd < 2) nd = 2;
+            continue;
+        }
         switch (t) {
         case 0: name = "valid"; break;
         case 1: name = "truncate-any"; n = (size_t)vp_rng_below(r, n + 1); break;
@@ -131,6 +140,15 @@ static int lst_child(int mode, const seq_t* s)
         long before = g_frames;
         new_packet(pair[1], 99);
         budget_stop();
+        /* every forwarded CAN frame comes from an ACF message of at least 16 bytes inside THIS datagram */
+        if (!g_in_sentinel) {
+            long dlen = g_seq->len[g_next - 1], hdrs = (use_udp ? 4 : 0) + 12;
+            long room = dlen > hdrs ? (dlen - hdrs) / 16 : 0;
+            if (g_frames - before > room) {
+                fprintf(stderr, "VP-REPLAY: %ld CAN frames forwarded for a %ld-byte datagram that can hold at most %ld ACF-CAN messages (stale buffer contents parsed)\n", g_frames - before, dlen, room);
+                return 81;
+            }
+        }
         if (g_in_sentinel) {
             canid_t id = (mode & 1) ? g_last.fd.can_id : g_last.cc.can_id;
             uint8_t len = (mode & 1) ? g_last.fd.len : g_last.cc.len;
